@@ -362,10 +362,21 @@ func runC01(c c01Case, protos []vt.NamedProto) (errs []string, maxInfl int32, nm
 	proto := protoByName(protos, c.Proto)
 	links := make([]*vt.Link, c.Sessions)
 	for i := range links {
-		links[i] = w.Connect(a, b, proto, func(p *vt.Pair) {
+		prep := func(p *vt.Pair) {
 			p.SetChunks(vt.AtoB, c.Chunks, c.Cycle)
 			p.SetChunks(vt.BtoA, c.Chunks, c.Cycle)
-		})
+		}
+		if strings.HasPrefix(c.Proto, "ws-") {
+			// websocket sessions: real HTTP upgrade + hybi framing over the in-memory transport
+			l, err := w.ConnectWS(a, b, proto, nil)
+			if err != nil {
+				return []string{"ws connect: " + err.Error()}, 0, 0
+			}
+			prep(l.Pair)
+			links[i] = l
+		} else {
+			links[i] = w.Connect(a, b, proto, prep)
+		}
 		if links[i].A == nil || links[i].B == nil {
 			return []string{fmt.Sprintf("connect failed: %v %v", links[i].AStat, links[i].BStat)}, 0, 0
 		}
@@ -481,11 +492,11 @@ func runC01(c c01Case, protos []vt.NamedProto) (errs []string, maxInfl int32, nm
 	return errs, atomic.LoadInt32(&state.maxInfl), nmsgs
 }
 
-const ruleC01 = "generated concurrent program: 1-3 sessions between two peers, 1-8 worker goroutines each issuing 1-12 Call/AsyncCall/Push ops in either direction, argument carrier type per codec (json/xml/form structs, plain *string/*[]byte/named string/named bytes, protobuf), payload length classes 0..5000, optional filter pipe, generated read-chunk schedule; every message is self-authenticating (token in body+metadata, payload checksum) and handlers are a pure function; non-trivial = >=2 handler executions overlapped (measured) or >=2 sessions active; distinct by the generated program"
+const ruleC01 = "generated concurrent program over raw/json/pb stream sessions and websocket sessions (json and protobuf sub-protocols, real upgrade): 1-3 sessions between two peers, 1-8 worker goroutines each issuing 1-12 Call/AsyncCall/Push ops in either direction, argument carrier type per codec (json/xml/form structs, plain *string/*[]byte/named string/named bytes, protobuf), payload length classes 0..5000, optional filter pipe, generated read-chunk schedule; every message is self-authenticating (token in body+metadata, payload checksum) and handlers are a pure function; non-trivial = >=2 handler executions overlapped (measured) or >=2 sessions active; distinct by the generated program"
 
 func TestC01CrossTalk(t *testing.T) {
 	rec := vt.NewRec(t, "C01", "crosstalk", ruleC01)
-	protos := vt.StreamProtos()
+	protos := append(vt.StreamProtos(), vt.WsSubProtos()...)
 	rapid.Check(t, func(t *rapid.T) {
 		c := genC01(t, protos, carrierNames)
 		errs, maxInfl, n := runC01(c, protos)
